@@ -656,9 +656,34 @@ fn splitter_probe(n: usize) -> Vec<u8> {
 	b
 }
 
+/// metadata whose value is `n` nested UBJSON containers that peppi's grammar does not have (arrays `[`, or
+/// arrays and maps alternating): refused at once today; a reader that grows array support must bound it too
+fn container_probe(n: usize, mixed: bool) -> Vec<u8> {
+	let m = crate::gen::simple_model((3, 16, 0), &[(0, false), (1, false)], 1, 1, crate::gen::Pattern::Zero, 1, false);
+	let mut raw = m.raw();
+	let mut md = Vec::with_capacity(n * 5 + 16);
+	md.extend_from_slice(b"U\x01a");
+	for i in 0..n {
+		if mixed && i % 2 == 1 {
+			md.extend_from_slice(b"{U\x01n");
+		} else {
+			md.push(b'[');
+		}
+	}
+	md.extend_from_slice(b"l\x00\x00\x00\x01");
+	for i in (0..n).rev() {
+		md.push(if mixed && i % 2 == 1 { b'}' } else { b']' });
+	}
+	md.push(b'}');
+	raw.metadata = Some(md);
+	raw.serialize()
+}
+
 fn probe_bytes(kind: &str, n: usize) -> Vec<u8> {
 	match kind {
 		"splitter_run" => splitter_probe(n),
+		"array_nesting" => container_probe(n, false),
+		"mixed_nesting" => container_probe(n, true),
 		_ => deep_probe(n),
 	}
 }
@@ -666,7 +691,13 @@ fn probe_bytes(kind: &str, n: usize) -> Vec<u8> {
 fn isolated_probes(ctx: &Ctx) -> Option<(Fail, Value)> {
 	let dir = format!("{}/work", ctx.root);
 	let _ = std::fs::create_dir_all(&dir);
-	let probes: Vec<(&str, usize)> = DEPTHS.iter().map(|d| ("deep", *d)).chain(SPLITTER_RUNS.iter().map(|n| ("splitter_run", *n))).collect();
+	let probes: Vec<(&str, usize)> = DEPTHS
+		.iter()
+		.map(|d| ("deep", *d))
+		.chain(SPLITTER_RUNS.iter().map(|n| ("splitter_run", *n)))
+		.chain([200usize, 100_000, 1_000_000].iter().map(|n| ("array_nesting", *n)))
+		.chain([200usize, 1_000_000].iter().map(|n| ("mixed_nesting", *n)))
+		.collect();
 	for (kind, n) in probes {
 		let bytes = probe_bytes(kind, n);
 		let path = format!("{}/c06_{}_{}_{}.slp", dir, kind, n, std::process::id());
@@ -676,7 +707,7 @@ fn isolated_probes(ctx: &Ctx) -> Option<(Fail, Value)> {
 			ctx.class(&format!("isolated_{}_probe", kind));
 			ctx.nontrivial(rt::hash_bytes(&[&n.to_le_bytes()[..], mode.as_bytes(), kind.as_bytes()].concat()));
 			let r = watch::isolated_read(&path, false, n % 2 == 0, mode, 120);
-			let what = if kind == "deep" { format!("metadata nested {} deep", n) } else { format!("a run of {} Message Splitter blocks{}", n, if n % 2 == 1 { " (file cut inside the run)" } else { "" }) };
+			let what = if kind == "deep" { format!("metadata nested {} deep", n) } else if kind.ends_with("_nesting") { format!("metadata value of {} nested containers ({})", n, kind) } else { format!("a run of {} Message Splitter blocks{}", n, if n % 2 == 1 { " (file cut inside the run)" } else { "" }) };
 			let bad = match &r {
 				ChildResult::Returned(_) => None,
 				ChildResult::Signal(sig, tail) => Some((format!("op=read abort signal={} {}>={}", sig, kind, if n >= 1000 { 1000 } else { n }), format!("{} ({} bytes): the process died with signal {} ({})", what, bytes.len(), sig, tail))),
